@@ -80,6 +80,13 @@ def agreement(ctx, p):
             return out
         sws = la_switches(el)
         app = [s for s in sws if rs and any(s in el.reaches(r) for r in rs)]
+        ab = el          # the body that holds the apply match: enact_logs, or a helper it calls after reset
+        if not app and rs:
+            for hb in lib.family(F, el.path):
+                if hb is not el and hb.kind != 'Closure' and lib.sites_reaching(hb, shared.APPLIERS, lift=False):
+                    calls_h = [x for x in el.call_sites(hb.path) if any(x in el.reaches(r) for r in rs)]
+                    if calls_h and la_switches(hb):
+                        ab, app = hb, la_switches(hb)
         val = [(el, s) for s in sws if rs and any(r in el.reaches(s) for r in rs) and not any(s in el.reaches(r) for r in rs)]
         if not val:
             for hb in lib.family(F, el.path):
@@ -90,11 +97,11 @@ def agreement(ctx, p):
             vb, vsw = val[0]
             adt = F.adts['log::LogAction']
             names = {v['discr']: v['name'] for v in adt['variants']}
-            tv, ta = vb.term(vsw), el.term(app[0])
+            tv, ta = vb.term(vsw), ab.term(app[0])
             arms_v = dict(zip(tv['vals'], tv['ts']))
             arms_a = dict(zip(ta['vals'], ta['ts']))
             gets = [bi for bi, t in vb.calls() if call_matches(t, ['core::slice::<impl [T]>::get', 're:Vec.*::get$']) and '.DbInner.columns' in lib.receiver_fields(vb, t, 0)]
-            idxs = [bi for bi, t in el.calls() if call_matches(t, ['re:Index<usize>>::index$', 're:Vec<column::Column> as std::ops::Index']) and '.DbInner.columns' in lib.receiver_fields(el, t, 0)]
+            idxs = [bi for bi, t in ab.calls() if call_matches(t, ['re:Index<usize>>::index$', 're:Vec<column::Column> as std::ops::Index']) and '.DbInner.columns' in lib.receiver_fields(ab, t, 0)]
             nx = [s for s in vb.call_sites("log::LogReader::<'a>::next") if s in vb.reaches(vsw) and vsw in vb.reaches(s)]
             goal = set(nx) | (set(rs) if vb is el else set(vb.return_blocks()))
             for v, nm in sorted(names.items()):
@@ -103,7 +110,7 @@ def agreement(ctx, p):
                 # does the applier index self.columns unchecked in this arm?
                 tgt_a = arms_a.get(v, ta['ts'][-1])
                 other = set(t2 for vv, t2 in arms_a.items() if vv != v) | {ta['ts'][-1]} - {tgt_a}
-                reach_a = el.reachable_from([tgt_a], removed=set(other) | {app[0]})
+                reach_a = ab.reachable_from([tgt_a], removed=set(other) | {app[0]})
                 uses_index = [i for i in idxs if i in reach_a]
                 if not uses_index:
                     continue
@@ -111,7 +118,7 @@ def agreement(ctx, p):
                 w = vb.find_path([tgt_v], goal, removed=set(gets) | core.error_exit_blocks(vb)) if tgt_v is not None else ['?']
                 ctx.ob(p + 'b column-id-validated %s' % nm, 'K9-agreement', vb.path,
                        'the apply pass indexes self.columns with the column id of a %s record without a check, so the validation pass must bounds-check it (columns.get) in its %s arm' % (nm, nm),
-                       w is None, '' if w is None else 'validation arm continues without a bounds check of the column id: ' + lib.short_path(vb, w), el.loc(uses_index[0]))
+                       w is None, '' if w is None else 'validation arm continues without a bounds check of the column id: ' + lib.short_path(vb, w), ab.loc(uses_index[0]))
     shared.old_table_records_skipped(ctx, p)
     # table validators bound what the appliers dereference
     for fn, fld in (('index::IndexTable::validate_plan', None), ('ref_count::RefCountTable::validate_plan', None)):
